@@ -161,6 +161,21 @@ func TestVerifC14Enc(t *testing.T) {
 			for _, s := range strsA {
 				out.Linef("tr s %s", vHex(s))
 			}
+			// every leaf of the marshalled map, at every depth, must be a plain value: no value whose dynamic type is
+			// still the opaque type (a LIVE secret: decoding it into a plain string field, or reading it by kind, gives
+			// the secret) and no string that is or contains a secret
+			c14LiveLeaves(mA, "", func(shape, what string) {
+				out.Linef("viol sig=C14/encode/live-opaque-value-in-marshalled-map/%s what=%s input=%s", shape, what, strings.ReplaceAll(v.String(), " ", "_"))
+			}, secA)
+			// … also after the map went through yaml and back into plain `any` values
+			if yb, yerr := yaml.Marshal(mA); yerr == nil {
+				var back map[string]any
+				if yaml.Unmarshal(yb, &back) == nil {
+					c14LiveLeaves(back, "", func(shape, what string) {
+						out.Linef("viol sig=C14/encode/secret-after-yaml-round-trip/%s what=%s", shape, what)
+					}, secA)
+				}
+			}
 			// direct oracles on the effective configuration as an extension would see / print it
 			y, _ := yaml.Marshal(mA)
 			if c14ContainsAny(string(y), secA) {
@@ -574,4 +589,53 @@ func c14FreshBuiltin(name string) any {
 		}
 	}
 	return nil
+}
+
+// c14LiveLeaves walks a marshalled configuration map. shape: the container path (m = map value, l = list
+// element) followed by the dynamic type of the leaf.
+func c14LiveLeaves(v any, shape string, report func(shape, what string), secrets []string) {
+	switch x := v.(type) {
+	case nil:
+		return
+	case map[string]any:
+		keys := make([]string, 0, len(x))
+		for k := range x {
+			keys = append(keys, k)
+		}
+		sort.Strings(keys)
+		for _, k := range keys {
+			if c14ContainsAny(k, secrets) {
+				report(shape+"m/key", "secret-in-key")
+			}
+			c14LiveLeaves(x[k], shape+"m", report, secrets)
+		}
+		return
+	case []any:
+		for _, e := range x {
+			c14LiveLeaves(e, shape+"l", report, secrets)
+		}
+		return
+	case string:
+		if c14ContainsAny(x, secrets) {
+			report(shape+"/string", "secret-text")
+		}
+		return
+	case bool, int, int8, int16, int32, int64, uint, uint8, uint16, uint32, uint64, float32, float64:
+		return
+	}
+	rv := reflect.ValueOf(v)
+	switch rv.Kind() {
+	case reflect.String:
+		// a named string type survived the encoder: what a plain string target would receive is rv.String()
+		what := "typed-string-kind-value"
+		if c14ContainsAny(rv.String(), secrets) {
+			what = "live-secret"
+		}
+		if _, isOpaque := v.(configopaque.String); isOpaque || what == "live-secret" {
+			report(shape+"/"+rv.Type().String(), what)
+		}
+	case reflect.Array, reflect.Slice:
+		// typed arrays are handed on by the encoder (modelled: Any.typed); their elements keep the opaque type,
+		// renderers go through its methods — reported only as a statistic by the caller
+	}
 }
